@@ -41,6 +41,7 @@ import (
 	"verif/sim/simetcd"
 	"verif/sim/simnet"
 	"verif/sim/simrt"
+	"verif/sim/sims3"
 )
 
 func TestSim(t *testing.T) { driver.Main(t, w4World) }
@@ -49,8 +50,10 @@ var w4World = driver.World{
 	Name: "w4-proxy",
 	Gen:  w4Gen,
 	Run:  w4Run,
-	Real: []string{"cmd/proxy: handleConnection, handleProduceRouting/forwardProduce/fanOutProduce, handleFetchRouting/forwardFetch/fanOutFetch, connPool, connectBackendExcluding, handleMetadata/loadMetadata/buildProxyMetadataResponse, handleFindCoordinator, buildNotReadyResponse, metadata cache refresh", "pkg/metadata PartitionRouter (load + watch) and InMemoryStore", "pkg/protocol framing and codecs", "etcd clientv3 front half"},
-	Stub: []string{"Kafka brokers behind the proxy (scripted: success, NOT_LEADER, per-partition errors, close before/after accepting, stall, garbage / short / extra / duplicated / truncated replies)", "TCP (simnet: dial refusal, resets, fragmentation)", "etcd server (SimEtcd)", "metadata store latency/errors (SimStore decorator over the real InMemoryStore)", "scheduler, clock"},
+	Real: []string{"cmd/proxy: handleConnection, handleProduceRouting/forwardProduce/fanOutProduce, handleFetchRouting/forwardFetch/fanOutFetch, connPool, connectBackendExcluding, handleMetadata/loadMetadata/buildProxyMetadataResponse, handleFindCoordinator, buildNotReadyResponse, metadata cache refresh", "pkg/metadata PartitionRouter (load + watch) and InMemoryStore", "pkg/protocol framing and codecs", "etcd clientv3 front half",
+		"LFS (C30-C32): cmd/proxy lfsModule rewriteProduceRequest/rewriteProduceRecords, lfs record/batch encoders, s3Uploader (Upload, UploadStream, multipart session calls), handleHTTPProduce, handleHTTPUploadInit/Session/Part/Complete/Abort, handleHTTPDownload/streamDownloadWithVerify; pkg/lfs Resolver, Consumer, envelope and checksum code; franz-go compression codecs"},
+	Stub: []string{"Kafka brokers behind the proxy (scripted: success, NOT_LEADER, per-partition errors, close before/after accepting, stall, garbage / short / extra / duplicated / truncated replies)", "TCP (simnet: dial refusal, resets, fragmentation)", "etcd server (SimEtcd)", "metadata store latency/errors (SimStore decorator over the real InMemoryStore)", "scheduler, clock",
+		"LFS: S3 behind the AWS SDK interface (SimS3: puts, multipart sessions with S3's completion rules, bodies that are short/corrupt/over-long/failing), net/http server (handlers are called directly with httptest recorders and fault-injecting request bodies), pkg/lfs S3Client (replaced by an S3Reader over SimS3), the LFS ops tracker (disabled)"},
 }
 
 const (
@@ -115,6 +118,18 @@ type w4 struct {
 	done     *simrt.Future
 	left     int
 	fetchSeq int
+
+	// W5 (LFS)
+	s3              *sims3.Store
+	s3api           *w5s3
+	lfs             *lfsModule
+	recv            map[string][][]byte      // "corr/topic/part" -> record sets brokers accepted
+	envAcks         map[string][]*w4returned // object key found in a produced envelope -> broker answers
+	lfsReqs         []*w4req
+	rewriteClause   string
+	envKeys         map[string]bool
+	undecodable     int
+	undecodableNote string
 }
 
 func w4quiet() *slog.Logger { return slog.New(slog.NewTextHandler(io.Discard, nil)) }
@@ -122,7 +137,8 @@ func w4quiet() *slog.Logger { return slog.New(slog.NewTextHandler(io.Discard, ni
 func (w *w4) cfg(n string, d int64) int64 { return w.c.Cfg(n, d) }
 
 func w4Run(t *testing.T, c *simrt.Case, prop string, keepTrace bool) simrt.Result {
-	w := &w4{c: c, prop: prop, truth: map[string]int{}, accepted: map[string][]w4accept{}, returned: map[string][]*w4returned{}, fetched: map[string][]*w4fetchRet{}}
+	w := &w4{c: c, prop: prop, truth: map[string]int{}, accepted: map[string][]w4accept{}, returned: map[string][]*w4returned{}, fetched: map[string][]*w4fetchRet{},
+		recv: map[string][][]byte{}, envAcks: map[string][]*w4returned{}, envKeys: map[string]bool{}}
 	res := simrt.Run(t, c, keepTrace, func(s *simrt.Sim) {
 		w.sim = s
 		w.setup()
@@ -195,6 +211,9 @@ func (w *w4) setup() {
 	})
 	w.booted = s.NewFuture("")
 	w.done = s.NewFuture("")
+	if w.cfg("lfs", 0) == 1 {
+		w.setupLFS()
+	}
 	// initial routing table, written before the proxy's router loads it
 	s.SetupNode = "env"
 	w.cli = w.etcd.Client("env")
@@ -260,6 +279,7 @@ func (w *w4) setup() {
 				s.Probe("w4.router-init-failed")
 			}
 		}
+		p.lfs = w.lfs
 		w.p = p
 		// clients that do not wait for the boot see the proxy before its cache is warm
 		w.booted.Set(true)
@@ -399,6 +419,8 @@ func (w *w4) serve(b *w4broker, frame []byte) simnet.Reply {
 	if err != nil {
 		w.sim.Probe("w4.broker-undecodable-request")
 		w.sim.Note(fmt.Sprintf("broker %d: undecodable request: %v", b.idx, err))
+		w.undecodable++
+		w.undecodableNote = fmt.Sprintf("broker b%d got a %d-byte frame: %v", b.idx, len(frame), err)
 		return simnet.Reply{Close: true}
 	}
 	kind := "broker.other"
@@ -445,6 +467,18 @@ func (w *w4) serve(b *w4broker, frame []byte) simnet.Reply {
 					b.next[key] += 1
 					w.accepted[mk] = append(w.accepted[mk], w4accept{broker: b.idx, corr: corr, step: w.sim.Step()})
 					w.sim.Probe("w4.produce-accepted")
+					if w.lfs != nil {
+						rk := fmt.Sprintf("%d/%s", corr, key)
+						w.recv[rk] = append(w.recv[rk], append([]byte(nil), pt.Records...))
+					}
+				}
+				if w.lfs != nil && q.Acks != 0 {
+					// an envelope produced by the HTTP API: remember what this broker answered for its object
+					if ek := envelopeKeyIn(pt.Records); ek != "" {
+						e := &w4returned{broker: b.idx, code: rp.ErrorCode, base: rp.BaseOffset}
+						entries = append(entries, e)
+						w.envAcks[ek] = append(w.envAcks[ek], e)
+					}
 				}
 				if mk != "" && q.Acks != 0 {
 					e := &w4returned{broker: b.idx, code: rp.ErrorCode, base: rp.BaseOffset}
